@@ -42,8 +42,8 @@ void h_search(void)
   __CPROVER_assume(IDX_HAS <= 1 && ROLE <= 1 && PKEY_IS_K <= 1 && CLOSED <= 1 && SID >= 1 && SID <= 3 && IDX_VAL >= 1 && IDX_VAL <= 3);
   /* INVb: an index entry that maps to this session carries this session's key, listener-side */
   __CPROVER_assume(!(IDX_HAS && IDX_VAL == SID) || (PKEY_IS_K && ROLE == 0));
-  IORA_TRUE = 1; GPK = 7; GSID = SID; GFD = 5;
-  static UdpEngine E; Session *s = malloc(sizeof(Session)); __CPROVER_assume(s != NULL);
+  IORA_TRUE = 1; GPK = 7; GSID = SID; GFD = 5; G = (struct iora_udp_ghost){0};     /* definite start values: the search build runs with --nondet-static */
+  static UdpEngine E; E = (UdpEngine){0}; Session *s = malloc(sizeof(Session)); __CPROVER_assume(s != NULL);
   *s = Session_DEFAULT;
   s->id = SID; s->role = ROLE ? Role_ClientConnected : Role_ServerPeer; s->fd = 5; s->pkey = PKEY_IS_K ? 7 : 8; s->closed = CLOSED != 0;
   E._sessions.has = 1; E._sessions.val = s;
